@@ -206,7 +206,7 @@ def check_c14(tier, only_cases=None):
     trace = os.path.join(wd, "c14.trace")
     # the code under test may take the whole process down (stack overflow, abort): that is a result, not a tool
     # error - the case without an output line is recorded as aborted and the run goes on behind it
-    done, aborted = 0, 0
+    done, aborted, notrun = 0, 0, 0
     with open(trace, "w") as tf:
         while done < len(cases):
             part = os.path.join(wd, f"c14.part{aborted}")
@@ -216,18 +216,21 @@ def check_c14(tier, only_cases=None):
             tf.writelines(lines); done += len(lines)
             if p.returncode == 0:
                 break
-            if p.returncode == 97 and done < len(cases) and aborted < 20:
-                # the harness's watchdog: the thread that polls the session never came back from this case
-                tf.write(json.dumps({"ev": "c14", "case": done, "c": cases[done], "gid": -1, "glen": 0, "hang": True,
-                                     "abort": p.stderr.strip()[-200:]}) + "\n")
-                done += 1; aborted += 1
-                continue
-            if p.returncode > 0 or aborted >= 20:
+            if p.returncode > 0 and p.returncode != 97:
                 raise ToolError(f"harness wire c14 failed rc={p.returncode}: {p.stderr[-1500:]}")
             if done < len(cases):
-                tf.write(json.dumps({"ev": "c14", "case": done, "c": cases[done], "gid": -1, "glen": 0, "panic": True,
-                                     "abort": f"the process was killed by signal {-p.returncode}: " + p.stderr.strip()[-160:]}) + "\n")
+                if p.returncode == 97:
+                    # the harness's watchdog: the thread that polls the session never came back from this case
+                    tf.write(json.dumps({"ev": "c14", "case": done, "c": cases[done], "gid": -1, "glen": 0, "hang": True,
+                                         "abort": p.stderr.strip()[-200:]}) + "\n")
+                else:
+                    tf.write(json.dumps({"ev": "c14", "case": done, "c": cases[done], "gid": -1, "glen": 0, "panic": True,
+                                         "abort": f"the process was killed by signal {-p.returncode}: " + p.stderr.strip()[-160:]}) + "\n")
                 done += 1; aborted += 1
+            if aborted >= 8:
+                # every one of these is a violation already; the cases behind them are not run
+                notrun = len(cases) - done
+                break
     stats, viols = validate_trace("WireTrace", trace, prop, f"{prop}-{tier}", TRACE_CFG, nchunks=8, independent=True)
     outcomes = {}
     for l in open(trace):
@@ -239,7 +242,7 @@ def check_c14(tier, only_cases=None):
         import check_agent
         agent = check_agent.side_run(prop, tier, verdict)
     return finish(prop, tier, t0, verdict, stats, viols, gr,
-                  {"agent_readers": agent, "samples": [cases[0], cases[len(cases) // 2], cases[-1]], "mutation_cases": len(cases), "outcome_histogram": outcomes,
+                  {"agent_readers": agent, "samples": [cases[0], cases[len(cases) // 2], cases[-1]], "mutation_cases": len(cases), "cases_not_run_after_8_that_killed_or_blocked_the_process": notrun, "outcome_histogram": outcomes,
                    "exhaustive": False,
                    "rule": "mutation scripts enumerated by TLC over 7 message templates: truncation / byte flips (3 masks) / invalid UTF-8 at 9 "
                            "positions, splices of every slice pair, duplicated element, 40-digit integers, wrong namespace, 3000-deep nesting, "
